@@ -15,6 +15,7 @@ import Model.MongoMig
 import Model.Conc
 import Model.StorageCodec
 import Model.MongoRegex
+import Model.SqlQuery
 /-!
 # `vaktdrv`: one case per line in, one result per line out
 -/
@@ -488,6 +489,28 @@ def handle (toks : List String) : Option String :=
          let ks := keys.toArray.qsort (· < ·) |>.toList
          pure ("ok uid=" ++ showVal r.uid ++ " effect=" ++ showVal r.effect ++ " type=" ++
            toString Vakt.Generated.typeStringBased ++ " ctx=" ++ ",".intercalate ks ++ " desc=" ++ showVal r.description))
+    | _ => none
+  | "LIKE" :: ts => do
+    let (pat, ts) ← pStr ts
+    let txt ← full (pStr ts)
+    pure ("ok " ++ showB (Vakt.SqlQuery.like Vakt.SqlQuery.sqliteCeq Option.none pat txt))
+  | "SQLFIND" :: mode :: ts => do
+    let (a, ts) ← pStr ts
+    let (su, ts) ← pStr ts
+    let (r, ts) ← pStr ts
+    let ps ← full (pCounted pPolicy ts)
+    if ps.any (fun p => !Vakt.StorageCodec.compileModelled p) then pure "unmodelled" else
+    match mode with
+    | "fuzzy" =>
+      pure ("ok " ++ showUids (Vakt.SqlQuery.find
+        (fun row => Vakt.SqlQuery.fuzzyCond Vakt.SqlQuery.sqliteCeq Option.none row a su r) Vakt.StorageCodec.modelCompile ps))
+    | "regex" =>
+      let tbl := rxTable ps
+      if tbl.any (fun kv => match kv.2 with | .unmodelled => true | _ => false) then pure "unmodelled" else
+      if !(CharTable.allKnown a && CharTable.allKnown su && CharTable.allKnown r) then pure "unmodelled" else
+      let search : Vakt.SqlQuery.Search := fun rx v => match mkSearch tbl rx v with | some b => b | Option.none => false
+      pure ("ok " ++ showUids (Vakt.SqlQuery.find
+        (fun row => Vakt.SqlQuery.regexCond search row a su r) Vakt.StorageCodec.modelCompile ps))
     | _ => none
   | "MFIND" :: ts => do
     let (a, ts) ← pStr ts
